@@ -110,8 +110,9 @@ def q_emit_running(cfg):
         d1, d2 = nv[i1], nv[i2]
         t2 = ctx.int("second_track", 0, ntr - 1) if ntr > 1 else 0
         p = cfg[3][0]
+        p2 = min(p + 1, cfg[3][1])
         first = [on(0, p, v1), wait(d1), off(0, p)]
-        second = [on(0, p + 1, v2), wait(d2), off(0, p + 1)]
+        second = [on(0, p2, v2), wait(d2), off(0, p2)]
         if ntr == 1 or bool(eq(t2, 0)):
             seqs = [rel_sequence(first + second)] + [rel_sequence([wait(d1)]) for _ in range(ntr - 1)]
         else:
